@@ -253,28 +253,24 @@ func GetOnlyExplainErr(errMsg string) string {
 	}
 	buf := newStrBuf(1 << 8)
 	defer putStrBuf(buf)
-	zhLen := len(ExplainZh)
-	enLen := len(ExplainEn)
-	endLen := len(ErrEndFlag)
-	splitLen := zhLen
-	nullLen := 1 // err msg [说明: xxx] 里包含一个空需要处理
-	for {
-		s := strings.Index(errMsg, ExplainZh)
-		e := strings.Index(errMsg, ErrEndFlag) // 未发现的话, 为最后一句错误
-		if s == -1 || (e != -1 && s > e) {     // 说明为英文
-			s = strings.Index(errMsg, ExplainEn)
-			splitLen = enLen
+	isFirst := true
+	// 按句处理, 每句只取最先出现的说明标记后面的内容, 没有说明的句子跳过
+	for _, clause := range strings.Split(errMsg, ErrEndFlag) {
+		s := strings.Index(clause, ExplainZh)
+		splitLen := len(ExplainZh)
+		if enIndex := strings.Index(clause, ExplainEn); enIndex != -1 && (s == -1 || enIndex < s) {
+			s = enIndex
+			splitLen = len(ExplainEn)
 		}
-		if s == -1 { // 异常
-			break
+		if s == -1 {
+			continue
 		}
-		if e == -1 {
-			buf.WriteString(errMsg[s+splitLen+nullLen:])
-			break
+		if !isFirst {
+			buf.WriteString(ErrEndFlag)
 		}
-		buf.WriteString(errMsg[s+splitLen+nullLen : e])
-		buf.WriteString(ErrEndFlag)
-		errMsg = errMsg[e+endLen:]
+		isFirst = false
+		// err msg [说明: xxx] 里包含一个空需要处理
+		buf.WriteString(strings.TrimPrefix(clause[s+splitLen:], " "))
 	}
 	return buf.String()
 }
